@@ -70,6 +70,7 @@ def main():
         with open(a.replay) as f:
             rp = json.load(f)
         ctx = common.Ctx(prop, rp.get("tier", a.tier), rp.get("seed", seed), 0, 1, 10 ** 9, keys)
+        common.import_repo()
         mod.replay(ctx, common.unjson(rp["case"]))
         d = ctx.dump()
         if d["violations"]:
